@@ -223,6 +223,40 @@ def static_order_rule(fx, scope, op_path, emitters=STATIC_EMITTERS, private_meth
     return out
 
 
+def parse_drop_rule(fx, scope, parsers=("::parse_assignment_expression", "::parse_expression")):
+    """[(fn, callee, span, used)] for every call of an expression parser"""
+    out = []
+    for p, f in sorted(fx.fns.items()):
+        if f.derived or not scope(f):
+            continue
+        for bi, t in f.calls():
+            d = t[1].get("d") or ""
+            if not d.endswith(parsers) or t[3][1]:
+                continue
+            holders = {t[3][0]}
+            ch = True
+            while ch:
+                ch = False
+                for b2, t2 in f.calls():
+                    if "ops::Try" in (t2[1].get("d") or "") and t2[2] and t2[2][0][0] in ("c", "m") and t2[2][0][1][0] in holders and not t2[3][1] and t2[3][0] not in holders:
+                        holders.add(t2[3][0]); ch = True
+                for bl in f.blocks:
+                    for st in bl["s"]:
+                        if st[0] == "a" and not st[1][1] and st[1][0] not in holders and st[2][0] == "use" and st[2][1][0] in ("c", "m") and st[2][1][1][0] in holders:
+                            holders.add(st[1][0]); ch = True
+            used = False
+            for bl in f.blocks:
+                for st in bl["s"]:
+                    if st[0] == "a" and st[2][0] != "disc" and (st[1][0] not in holders or st[1][0] == 0) and any(pl[0] in holders for pl in F.rvalue_places(st[2])):
+                        used = True
+                tt = bl["t"]
+                if tt[0] == "call" and "ops::Try" not in (tt[1].get("d") or "") and "FromResidual" not in (tt[1].get("d") or "") and \
+                        any(a[0] in ("c", "m") and a[1][0] in holders for a in tt[2]):
+                    used = True
+            out.append((f, d.split("::")[-1], t[6], used))
+    return out
+
+
 def param_sibling_rule(fx, scope, op_path, pattern_adt="ast::Pattern", info_adt="FunctionInfo"):
     """[(fn, kind, ok, span, why)]"""
     out = []
@@ -376,6 +410,17 @@ def run(fx, ck, OP):
         ck.instance("R16.static-elements-order", "%s: %s" % (f.path, kind), F.short_span(sp), ok=ok)
         if not ok:
             ck.finding("R16.static-elements-order", "R16.static-elements-order/%s/%s" % (f.path, kind), F.short_span(sp), "`%s`: %s" % (f.path, why))
+    # ---- R20 a parser that builds a node keeps the expressions it parses
+    ck.rule("R20.parsed-expression-kept", "a parser function that returns an AST node uses the value of every expression it parses (only functions that return no node - "
+                                          "the skippers of ambient declarations - may parse and drop)", floor=25)
+    for f, callee, sp, used in parse_drop_rule(fx, lambda g: g.file.endswith("src/parser.rs")):
+        skipper = fx.tys(f.locals[0]).startswith("std::result::Result<(), ")
+        ck.instance("R20.parsed-expression-kept", "%s: %s%s" % (f.path, callee, " (skipper: returns no node)" if skipper and not used else ""), F.short_span(sp),
+                    ok=used or skipper, nontrivial=not (skipper and not used))
+        if not used and not skipper:
+            ck.finding("R20.parsed-expression-kept", "R20.parsed-expression-kept/%s/%s" % (f.path, callee), F.short_span(sp),
+                       "`%s` parses an expression with `%s` and drops the result: the program text it stands for is silently ignored "
+                       "(`async (a = 7) => a` - the default value never reached the AST)" % (f.path, callee))
     # ---- R19 the "arguments were packed" flag is never ignored
     # compile_arguments returns (start, count, has_spread): with a spread among the arguments they arrive packed in ONE array register, and the caller
     # must pick the *Spread form of its call instruction.  A call site that drops the flag passes the array itself as the only argument.
